@@ -299,7 +299,8 @@ func run(c *core.Ctx) error {
 	// 1. the model decides
 	// builder: the index was made by the offline builder (the id of its segment is not the
 	// number of its file) and is then written, merged, purged and copied online
-	cfgs := []string{"ScorchDisk_mc_disk.cfg", "ScorchDisk_mc_reader.cfg", "ScorchDisk_mc_builder.cfg"}
+	// restart: the process dies at any instant and the index is opened again (KeepN = 2)
+	cfgs := []string{"ScorchDisk_mc_disk.cfg", "ScorchDisk_mc_reader.cfg", "ScorchDisk_mc_builder.cfg", "ScorchDisk_mc_restart.cfg"}
 	if c.Thorough() {
 		// async release of epochs (2.1M states), the larger bounds (1.0M) and the in-memory
 		// merge of the persister with unsafe batches (1.6M): about 2 minutes each on 8 workers
@@ -309,6 +310,11 @@ func run(c *core.Ctx) error {
 		if _, ok := c.ModelCheck("ScorchDisk", cfg, core.Workers(8), core.Timeout(25*time.Minute), core.Heap(8000)); !ok {
 			return nil
 		}
+	}
+	// a new process life that does not register the snapshots it inherits as eligible for
+	// removal keeps them for ever: refuted (RetentionWhenQuiescent)
+	if _, ok := c.ModelRefutes("ScorchDisk", "ScorchDisk_mc_restart_forget.cfg", "RetentionWhenQuiescent", core.Workers(8), core.Timeout(25*time.Minute), core.Heap(8000)); !ok {
+		return nil
 	}
 	// the reader clause has an open known finding: TLC refutes it in a config of
 	// its own; the counterexample is the schedule the directed scenario replays
